@@ -516,7 +516,8 @@ type wgen struct {
 }
 
 func (g *wgen) word() string {
-	return g.r.PickS([]string{"a", "b", "srv", "x1", "", "v", "127.0.0.1:80", "Ab_c", "tcp"})
+	return g.r.PickS([]string{"a", "b", "srv", "x1", "", "v", "127.0.0.1:80", "Ab_c", "tcp",
+		"10.0.0.0/8", "0.0.0.0/0", "192.168.1.1/32", "::/0", "fe80::/10", "10.0.0.0/33", "a", "b", "srv"})
 }
 
 func caseVariant(r *hx.Rng, k string) string {
@@ -567,7 +568,9 @@ func (g *wgen) value(t reflect.Type, depth int) string {
 		}
 		return fmt.Sprintf("%q", g.durString())
 	case t.PkgPath() != "" && t.PkgPath() != v2Pkg && t.Kind() == reflect.Uint64:
-		return r.PickS([]string{"0", "1", "1024", "1536", `"1KB"`, `"10 MB"`, `"1.5MB"`, `"x"`, "1048576"})
+		return r.PickS([]string{"0", "1", "1024", "1536", `"1KB"`, `"10 MB"`, `"1.5MB"`, `"x"`, "1048576",
+			`"0"`, `"1B"`, `"1023B"`, `"1024B"`, `"1kb"`, `"1MB"`, `"1GB"`, `"1TB"`, `"1PB"`, `"15EB"`, `"16EB"`, `"1KB "`, `"1K"`, `"1048575"`,
+			"18446744073709551615", "18446744073709551616", `"18446744073709551615B"`, `"-1"`, `""`})
 	case t.PkgPath() != "" && t.PkgPath() != v2Pkg:
 		return "null"
 	}
